@@ -974,18 +974,67 @@ where
         };
         use crate::internals::hash_dual::algorithms::update_rle_block;
         let mut fuzzy = Self::new();
+        // The template below only limits the *normalized* block hash lengths.
+        // A dual fuzzy hash also stores the raw form so the *raw* lengths
+        // (normalized length + characters removed by the normalization)
+        // must fit in the block hashes, too (just like the raw variants).
+        // Offset of the block hash 1 (only used for error reporting).
+        let bh1_start = str
+            .iter()
+            .position(|&ch| ch == b':')
+            .map_or(0, |pos| pos + 1);
+        let mut raw_extra_1 = 0usize;
+        let mut raw_overflow_1 = false;
+        let mut raw_extra_2 = 0usize;
+        let mut raw_overflow_2 = false;
+        // `index` must not be updated on failure.
+        let mut last_index = 0usize;
+        let last_index_ref = &mut last_index;
         hash_from_bytes_with_last_index_internal_template! {
-            str, index, true,
+            str, last_index_ref, true,
             fuzzy.norm_hash.log_blocksize,
             { let mut  rle_offset = 0; },
-            #[inline(always)] |pos, len| rle_offset = update_rle_block(
-                &mut fuzzy.rle_block1, rle_offset, pos + block_hash::MAX_SEQUENCE_SIZE - 1, len),
+            #[inline(always)] |pos, len| {
+                raw_extra_1 += len - block_hash::MAX_SEQUENCE_SIZE;
+                if raw_overflow_1 || pos + block_hash::MAX_SEQUENCE_SIZE + raw_extra_1 > S1 {
+                    raw_overflow_1 = true;
+                } else {
+                    rle_offset = update_rle_block(
+                        &mut fuzzy.rle_block1, rle_offset, pos + block_hash::MAX_SEQUENCE_SIZE - 1, len);
+                }
+            },
             fuzzy.norm_hash.blockhash1, fuzzy.norm_hash.len_blockhash1,
-            { let mut  rle_offset = 0; },
-            #[inline(always)] |pos, len| rle_offset = update_rle_block(
-                &mut fuzzy.rle_block2, rle_offset, pos + block_hash::MAX_SEQUENCE_SIZE - 1, len),
+            {
+                if raw_overflow_1 || fuzzy.norm_hash.len_blockhash1 as usize + raw_extra_1 > S1 {
+                    return Err(ParseError(
+                        ParseErrorKind::BlockHashIsTooLong,
+                        ParseErrorOrigin::BlockHash1,
+                        bh1_start + S1,
+                    ));
+                }
+                let bh2_start =
+                    bh1_start + fuzzy.norm_hash.len_blockhash1 as usize + raw_extra_1 + 1;
+                let mut  rle_offset = 0;
+            },
+            #[inline(always)] |pos, len| {
+                raw_extra_2 += len - block_hash::MAX_SEQUENCE_SIZE;
+                if raw_overflow_2 || pos + block_hash::MAX_SEQUENCE_SIZE + raw_extra_2 > S2 {
+                    raw_overflow_2 = true;
+                } else {
+                    rle_offset = update_rle_block(
+                        &mut fuzzy.rle_block2, rle_offset, pos + block_hash::MAX_SEQUENCE_SIZE - 1, len);
+                }
+            },
             fuzzy.norm_hash.blockhash2, fuzzy.norm_hash.len_blockhash2
         }
+        if raw_overflow_2 || fuzzy.norm_hash.len_blockhash2 as usize + raw_extra_2 > S2 {
+            return Err(ParseError(
+                ParseErrorKind::BlockHashIsTooLong,
+                ParseErrorOrigin::BlockHash2,
+                bh2_start + S2,
+            ));
+        }
+        *index = last_index;
         Ok(fuzzy)
     }
 
